@@ -104,6 +104,9 @@ pub struct Tables {
     pub markers: BTreeMap<String, MarkerKind>,
     /// address -> attribute names held
     pub attrs: BTreeMap<String, Vec<String>>,
+    /// denominations whose marker account lists required attributes (a marker-level
+    /// feature that does not change the marker's type)
+    pub marker_required_attrs: std::collections::BTreeSet<String>,
 }
 
 impl Tables {
@@ -170,7 +173,11 @@ impl<'a> Querier for TableQuerier<'a> {
                         supply_fixed: false,
                         allow_governance_control: false,
                         allow_forced_transfer: false,
-                        required_attributes: vec![],
+                        required_attributes: if self.t.marker_required_attrs.contains(&req.id) {
+                            vec!["marker.holder.kyc".to_string()]
+                        } else {
+                            vec![]
+                        },
                     };
                     let resp = QueryMarkerResponse {
                         marker: Some(Any {
